@@ -348,6 +348,10 @@ func Proposal(r *R) abs.Proposal {
 		n = r.Pick(254, 255, 255, 128) // the transform count is an 8-bit field
 	}
 	for i := 0; i < n; i++ {
+		if i > 0 && r.Chance(1, 8) {
+			p.Transforms = append(p.Transforms, p.Transforms[r.Intn(i)]) // the same transform offered again
+			continue
+		}
 		p.Transforms = append(p.Transforms, Transform(r, uint8(1+r.Intn(5))))
 	}
 	return p
@@ -367,6 +371,10 @@ func SA(r *R) abs.Payload {
 		return abs.Payload{Kind: abs.PSA, SA: sa}
 	}
 	for i := 0; i < n; i++ {
+		if i > 0 && r.Chance(1, 8) {
+			sa.Proposals = append(sa.Proposals, sa.Proposals[r.Intn(i)]) // an identical proposal again
+			continue
+		}
 		sa.Proposals = append(sa.Proposals, Proposal(r))
 	}
 	return abs.Payload{Kind: abs.PSA, SA: sa}
@@ -394,6 +402,10 @@ func TS(r *R, kind uint8) abs.Payload {
 		n = 255
 	}
 	for i := 0; i < n; i++ {
+		if i > 0 && r.Chance(1, 6) {
+			ts.Sel = append(ts.Sel, ts.Sel[r.Intn(i)]) // an identical selector again
+			continue
+		}
 		ts.Sel = append(ts.Sel, Selector(r))
 	}
 	return abs.Payload{Kind: kind, TS: ts}
@@ -422,6 +434,9 @@ func CP(r *R) abs.Payload {
 			a.Value = CPValue(r, a.Type)
 		} else {
 			a.Value = Data(r, 0)
+		}
+		if i > 0 && r.Chance(1, 6) {
+			a = c.Attrs[r.Intn(i)] // the same attribute (type and value) again
 		}
 		c.Attrs = append(c.Attrs, a)
 	}
@@ -454,6 +469,10 @@ func Delete(r *R) abs.Payload {
 		}
 		d.Num = uint16(n)
 		for i := 0; i < n; i++ {
+			if i > 0 && r.Chance(1, 6) {
+				d.SPIs = append(d.SPIs, d.SPIs[r.Intn(i)])
+				continue
+			}
 			d.SPIs = append(d.SPIs, r.U32())
 		}
 	}
@@ -676,6 +695,10 @@ func Msg(r *R, o Opt) *abs.Msg {
 		for i := 0; i < n; i++ {
 			if o.AllowBig && r.Chance(1, 40) {
 				m.Payloads = append(m.Payloads, Big(r))
+				continue
+			}
+			if i > 0 && r.Chance(1, 12) {
+				m.Payloads = append(m.Payloads, m.Payloads[r.Intn(i)]) // the same payload twice (e.g. two identical notifications)
 				continue
 			}
 			m.Payloads = append(m.Payloads, Payload(r, allKinds[r.Intn(len(allKinds))]))
